@@ -357,7 +357,7 @@ def c16() -> int:
 
 def c18() -> int:
     c = Check("C18", "explicit-state BFS of the real step function (FSX), deviation-bounded")
-    c.assumptions += ["only plugs taken through the queue's own default transition are judged (no instruction addressed to that vehicle in the step); controller-directed plug-ins are counted, not judged (DESIGN.md 4/C18)"]
+    c.assumptions += ["plugs taken through the queue's own default transition and through instructions generated by the library itself (drivers) are judged; plug-ins the scripted controller itself directed are counted, not judged (DESIGN.md 4/C18)"]
     quick = tier() == "quick"
     FIFO = ("hivemc.w_fifo", "make")
     needs = ["c18:grant_while_another_keeps_waiting", "c18:abandoned_queue", "c18:grant_by_queue", "c18:tie_on_enqueue_time"]
@@ -367,6 +367,10 @@ def c18() -> int:
     # the queue spans midnight (run starts three minutes before the end of a day); fleets in use with a public station
     fsx(c, FIFO + ({"midnight": True},), ("hivemc.bundles", "c18", {}), K=4 if quick else 5, H=9 if quick else 11, needs=needs[:1] + ["c18:queue_spans_midnight"])
     fsx(c, FIFO + ({"fleets": True},), ("hivemc.bundles", "c18", {}), K=4 if quick else 5, H=9 if quick else 11, needs=needs[:1])
+    # a human driver in the queue whose shift ends during the run (his own go-home logic then asks for a dispatch to the station he
+    # is queueing at); plug-ins through instructions the LIBRARY generated (drivers) are judged, only the scripted controller's are not
+    for k in ((4,) if quick else (2, 3, 4)):
+        fsx(c, FIFO + ({"human": k},), ("hivemc.bundles", "c18", {}), K=3 if quick else 5, H=7 if quick else 10, needs=needs[:1])
     # a vehicle that is still full when it arrives at the busy station; an initial layout at time 0 with a vehicle queued since t = 0
     fsx(c, FIFO + ({"full_v1": True},), ("hivemc.bundles", "c18", {}), K=4 if quick else 5, H=9 if quick else 11, needs=needs[:1])
     fsx(c, FIFO + ({"t0": True},), ("hivemc.bundles", "c18", {}), K=3 if quick else 5, H=9 if quick else 11,
